@@ -1,9 +1,10 @@
 #!/usr/bin/env python3
-"""Regenerate /verif/MANIFEST.json from checks.json + manifest_meta.json (single source of truth)."""
+"""Regenerate /verif/MANIFEST.json from checks.d/*.json + manifest_base.json (single source of truth)."""
 import json, os
 V = os.path.dirname(os.path.dirname(os.path.abspath(__file__)))
-cfg = json.load(open(os.path.join(V, "checks.json")))
-meta = json.load(open(os.path.join(V, "manifest_meta.json")))
+cfg = {"checks": {f[:-5]: json.load(open(os.path.join(V, "checks.d", f))) for f in sorted(os.listdir(os.path.join(V, "checks.d"))) if f.endswith(".json")}}
+meta = json.load(open(os.path.join(V, "manifest_base.json")))
+meta["checks"] = cfg["checks"]
 props = [json.loads(l)["id"] for l in open(os.path.join(V, "properties.jsonl"))]
 checks = []
 for pid in sorted(cfg["checks"]):
